@@ -133,7 +133,7 @@ def verify_function(prog, reg, c, labels=None, opts=None, timeout_ms=20000):
         if c.setup: c.setup(S, fr.argns, p, ex)
         pre = c.pre(S, fr.argns) if c.pre else None
         p = sx.Path(([pre] if pre is not None else []), env, p.heap)
-        if not ex.feasible(p.pc + S.facts):
+        if not ex.feasible(p.pc):
             rep.vacuous = True; rep.error = 'precondition unsatisfiable (vacuous contract)'; return rep
         outs = ex.block(fn.body, p, fr)
         for kind, q, v in outs:
@@ -145,7 +145,12 @@ def verify_function(prog, reg, c, labels=None, opts=None, timeout_ms=20000):
                 for q1, v1 in ex.split_opt(q, v):
                     for label, post in c.posts.items():
                         if labels is not None and label not in labels: continue
-                        ex.oblige(f'{label}/{site}', q1.pc, post(S, fr.argns, v1, q1) if _wants_path(post) else post(S, fr.argns, v1), kind='post', trace=q1.trace)
+                        try:
+                            g = post(S, fr.argns, v1, q1) if _wants_path(post) else post(S, fr.argns, v1)
+                        except (AttributeError, TypeError, AssertionError, IndexError) as e:
+                            # the returned value does not even have the shape the contract speaks about
+                            g = z3.BoolVal(False)
+                        ex.oblige(f'{label}/{site}', q1.pc, g, kind='post', trace=q1.trace)
             elif kind == 'exc':
                 if not any(sx.exc_matches(v.typ, t) is True for t in c.raises):
                     ex.oblige(f'raises_only{list(c.raises)}/{v.typ}@L{v.where}', q.pc, z3.BoolVal(False), kind='raise', trace=q.trace)
@@ -189,7 +194,7 @@ def discharge(o, facts, timeout_ms=20000):
     if z3.is_true(goal):
         return VCResult(o, 'discharged', solver='trivial', secs=0.0)
     so = z3.Solver(); so.set('timeout', timeout_ms)
-    so.add(*o.pc); so.add(*facts); so.add(z3.Not(goal))
+    so.add(o.pc.term()); so.add(*facts); so.add(z3.Not(goal))
     r = so.check()
     secs = time.time() - t0
     if r == z3.unsat: return VCResult(o, 'discharged', solver='z3', secs=secs)
